@@ -76,6 +76,9 @@ def build(spec):
         b['plain'] = pyenv.rbytes(rng, spec['plain'])
     if spec['exefs'] is not None:
         b['exefs_files'] = [(nm, pyenv.rbytes(rng, sz)) for nm, sz in spec['exefs']]
+        if spec.get('exefs_data'):
+            # contents given outright (hex), e.g. a compressed .code
+            b['exefs_files'] = [(nm, bytes.fromhex(spec['exefs_data'][nm]) if nm in spec['exefs_data'] else d) for nm, d in b['exefs_files']]
         b['exefs_slots'] = spec['slots']
     if spec['romfs']:
         tree = R.random_tree(rng, max_depth=2, max_children=3, max_file=200, unicode_names=False)
